@@ -364,8 +364,8 @@ def bounds(tier, seed):
                 'histories': '[S], [S,S] over the full alphabet; [S,U,S] with 4 update kinds, first solve from the 6-entry alphabet', 'inner': ['ref', 'lu(diagonal-free subset)'],
                 'table': seed % len(VALS)}
     return {'n': 3, 'matrices': 152, 'rhs': len(RHS_FULL), 'modes': 3,
-            'histories': 'levels: depth2 all inner solvers and flags; [S,S,S]; [S,U,S,S],[S,S,U,S],[S,U,S,U,S] on the '
-                         'reduced rhs alphabet', 'inner': ['ref', 'lu', 'qr', 'splu'], 'table': seed % len(VALS)}
+            'histories': 'levels in this order: depth2 (ref, LU subset); [S,S,S]; [S,U,S,S],[S,S,U,S] on the reduced rhs '
+                         'alphabet; depth2 with flags given; depth2 with LU/QR/SparseLU inner solvers; [S,U,S,U,S]', 'inner': ['ref', 'lu', 'qr', 'splu'], 'table': seed % len(VALS)}
 
 
 def generate(tier, seed):
@@ -391,11 +391,6 @@ def generate(tier, seed):
     yield from level_depth2('lu', 'none', sub)
     if tier == 'quick':
         return
-    for inner in ('lu', 'qr', 'splu'):
-        yield {'__level__': f'depth2/{inner}'}
-        yield from level_depth2(inner, 'none', names)
-    yield {'__level__': 'depth2/ref/flags-given'}
-    yield from level_depth2('ref', 'given', names)
     yield {'__level__': 'depth3/SSS/ref', 'count': len(names) * len(first)}
     for nm in names:
         for op1 in first:
@@ -407,6 +402,11 @@ def generate(tier, seed):
         for op1 in small:
             yield {'mat': nm, 'table': t, 'inner': 'ref', 'flags': 'none', 'prefix': [op1],
                    'tails': [['U', 'S', 'S'], ['S', 'U', 'S']], 'rhs_alphabet': RHS_SMALL}
+    yield {'__level__': 'depth2/ref/flags-given'}
+    yield from level_depth2('ref', 'given', names)
+    for inner in ('lu', 'qr', 'splu'):
+        yield {'__level__': f'depth2/{inner}'}
+        yield from level_depth2(inner, 'none', names)
     yield {'__level__': 'depth5/SUSUS/reduced-rhs'}
     tiny = ['b1', 'bc', 'blkdep']
     for nm in names:
